@@ -7,8 +7,8 @@ import itertools
 
 ROLES = {
     "M": ["none", "read", "assign", "aug", "walrus", "for", "def", "class", "import", "comp", "fortuple", "whilewalrus", "forwalrus"],
-    "F": ["none", "read", "assign", "aug", "walrus", "param", "for", "comp", "gassign", "gread", "gaug", "nassign", "nread", "naug", "def", "class", "import", "kwparam", "starparam", "paramassign", "paramaug", "whilewalrus", "forwalrus"],
-    "C": ["none", "read", "assign", "aug", "for", "gassign", "nassign", "readassign", "def", "import", "walrusless", "whilewalrus", "forwalrus"],
+    "F": ["none", "read", "assign", "aug", "walrus", "param", "for", "comp", "gassign", "gread", "gaug", "nassign", "nread", "naug", "def", "class", "import", "kwparam", "starparam", "paramassign", "paramaug", "whilewalrus", "forwalrus", "posparam"],
+    "C": ["none", "read", "assign", "aug", "for", "gassign", "nassign", "readassign", "def", "import", "walrusless", "whilewalrus", "forwalrus", "condassign", "loopassign0"],
     "L": ["none", "read", "param", "walrus", "default", "compwalrus"],
     "G": ["none", "read", "target", "walrus", "readiter", "readcond"],
     "E": ["none", "read", "target", "readiter"],
@@ -47,8 +47,8 @@ def trees(nscopes, maxdepth=4):
 
 CHAIN_ROLES = {
     "M": ["none", "assign"],
-    "F": ["none", "read", "assign", "param", "gassign", "gread", "nassign", "nread", "naug"],
-    "C": ["none", "read", "assign", "gassign", "readassign"],
+    "F": ["none", "read", "assign", "param", "posparam", "gassign", "gread", "nassign", "nread", "naug"],
+    "C": ["none", "read", "assign", "gassign", "readassign", "condassign"],
     "L": ["read", "walrus", "compwalrus"],
     "G": ["read", "target"],
     "E": ["read"],
@@ -132,6 +132,13 @@ def gen(t, path, ind, out):
     elif role == "readassign":
         emit('log(%s+":ra", show(x))' % V)
         emit("x = %s" % V)
+    elif role == "condassign":
+        # assigned only in a branch that is not taken: a later class-level read falls back to the global
+        emit("if not show:")
+        emit("    x = %s" % V)
+    elif role == "loopassign0":
+        emit("for x in []:")
+        emit("    pass")
     elif role == "walrusless":
         emit("x = y = %s" % V)
     if role != "none":
@@ -140,14 +147,14 @@ def gen(t, path, ind, out):
         cp = path + "." + c[0] + str(i)
         ck, cr, cch = c
         if ck == "F":
-            params = {"param": "x", "kwparam": "*, x", "starparam": "*x", "paramassign": "x", "paramaug": "x"}.get(cr, "")
+            params = {"param": "x", "kwparam": "*, x", "starparam": "*x", "paramassign": "x", "paramaug": "x", "posparam": "x, /"}.get(cr, "")
             emit("def f%d(%s):" % (i, params))
             body = []
             gen(c, cp, ind + 1, body)
             if not body:
                 body = ["    " * (ind + 1) + "pass"]
             out.extend(body)
-            call = {"param": repr(cp + "arg"), "kwparam": "x=" + repr(cp + "arg"), "starparam": repr(cp + "arg"), "paramassign": repr(cp + "arg"), "paramaug": repr(cp + "arg")}.get(cr, "")
+            call = {"param": repr(cp + "arg"), "kwparam": "x=" + repr(cp + "arg"), "starparam": repr(cp + "arg"), "paramassign": repr(cp + "arg"), "paramaug": repr(cp + "arg"), "posparam": repr(cp + "arg")}.get(cr, "")
             emit("f%d(%s)" % (i, call))
         elif ck == "C":
             emit("class K%d:" % i)
